@@ -1,7 +1,50 @@
-import WrglModel.Model.Sorter
-import WrglModel.Spec.Sorter
+/-
+C03 — Every stored table is structurally sound and its indices agree with its rows.
+Property theorems only. Spec: Spec/TableInv.lean (`tableInv`, the decidable predicate the driver also
+evaluates on every real table dump). Model: Model/Sorter.lean, Model/TableId.lean (`indexBlock`).
+-/
+import WrglModel.Model.TableId
 import WrglModel.Spec.TableInv
+import WrglModel.Lemmas.C01
 import WrglModel.Gen.Facts
 namespace Wrgl
-theorem C03_placeholder : True := trivial
+
+/-- the full stored table (rows, recomputed hashes, block indices, table index) of an ingest result -/
+def fullTableOfStored (H : Bytes → Bytes) (sortPerm : List Bytes → List Nat) (mc : Nat) (pk : List Nat) (t : StoredTable) : FullTable :=
+  FullTable.mk t.columns t.pk t.rowsCount t.blocks (t.blocks.map (fun b => b.map (rowHashes H mc pk)))
+    (t.blocks.map (indexBlock H sortPerm mc pk)) t.tblIdx
+
+/-- The table ingest stores (commit, and every producer that goes through the sorter/inserter:
+    merge results, doctor re-ingest), with block indices built from its blocks, satisfies every
+    clause: row count = rows present; blocks 255/…/255/1..255; keys strictly ascending over the
+    whole table; each block index holds exactly (H key, H row) per row in row order and is sorted by
+    key hash; the table index lists the first key of every block. Includes sizes k·255 and k·255+1
+    and duplicate keys at a block edge (all inputs). -/
+theorem C03_ingest_inv (H : Bytes → Bytes) (sortPerm : List Bytes → List Nat) (hp : IsSortPerm sortPerm)
+    (sortFn : List Row → List Row) (pk : List Nat) (hs : IsSort pk sortFn)
+    (w : Nat) (mc : Nat) (runSize : Nat) (columns : Row) (rows : List Row) (t : StoredTable) (hw : RowsWF w pk rows)
+    (h : ingestTable sortFn Facts.blockSize Facts.addRowMaxCell runSize columns pk rows = .ok t) :
+    tableInv Facts.blockSize (fullTableOfStored H sortPerm mc pk t) = [] :=
+  ingest_tableInv H sortPerm hp sortFn pk hs Facts.blockSize (by decide) w Facts.addRowMaxCell mc runSize columns rows t hw h
+
+/-- `rowAt`: the offset arithmetic diff and merge rely on (`RowToBlockAndOffset`) -/
+def rowAt (bs : Nat) (blocks : List (List Row)) (off : Nat) : Option Row :=
+  (blocks[off / bs]?).bind (·[off % bs]?)
+
+/-- With every block but the last full, absolute offset `b·255+i` addresses row `i` of block `b`. -/
+theorem C03_offsets (blocks : List (List Row)) (b i : Nat) (blk : List Row) (r : Row)
+    (hb : blocks[b]? = some blk) (hi : blk[i]? = some r) (hlen : blk.length ≤ Facts.blockSize) :
+    rowAt Facts.blockSize blocks (b * Facts.blockSize + i) = some r := by
+  have hil : i < blk.length := by
+    rcases Nat.lt_or_ge i blk.length with h | h
+    · exact h
+    · rw [List.getElem?_eq_none h] at hi; exact absurd hi (by simp)
+  have hbs : i < Facts.blockSize := by omega
+  unfold rowAt
+  have h1 : (b * Facts.blockSize + i) / Facts.blockSize = b := by
+    rw [Nat.mul_comm, Nat.mul_add_div (by decide)]; simp [Nat.div_eq_of_lt hbs]
+  have h2 : (b * Facts.blockSize + i) % Facts.blockSize = i := by
+    rw [Nat.mul_comm, Nat.mul_add_mod]; exact Nat.mod_eq_of_lt hbs
+  rw [h1, h2, hb]; simpa using hi
+
 end Wrgl
